@@ -26,99 +26,127 @@ EXPLANATION = (
 UNDECIDED = "set equality of the reported literals with the substituted schema for all calls (only the structural clauses above)"
 
 
+GROUNDING_CALLS = ("ground_preconditions", "ground_conditional_effect")
+
+
 def rule_zip(repo: Repo) -> RuleResult:
-    r = RuleResult("C20.zip", "parameter map = {p: a for p, a in zip(action.signature, call arguments)} in their own order", "position by position")
-    for spec in ("Operator.ground", "Operator._apply_universal_effects"):
-        f = repo.func(spec)
+    r = RuleResult("C20.zip", "every grounding call receives the map {parameter: argument} paired by zip(action.signature, call arguments) in their own order "
+                   "(plus the quantified parameter -> object binding in the forall pass)", "position by position")
+    want_key = ("self", "attr:action", "attr:signature", "zip0")
+    want_val = ("self", "attr:grounded_call_objects", "zip1")
+    n_calls = {}
+    for spec in ("Operator.ground", "Operator.apply"):
+        f = L.fn(repo, spec)
         p = L.prov(repo, f)
-        found = False
-        for n in ast.walk(f.node):
-            if isinstance(n, ast.DictComp) and len(n.generators) == 1 and isinstance(n.generators[0].iter, ast.Call) and callee_name(n.generators[0].iter) == "zip":
-                z = n.generators[0].iter
-                if len(z.args) != 2:
-                    continue
-                t0, t1 = p.trace(z.args[0]), p.trace(z.args[1])
-                if not any("attr:signature" in x for x in t0 | t1):
-                    continue
-                found = True
-                r.site(L.site(f, n, "parameter map"))
-                bad = ("arg0:sorted", "arg0:reversed", "arg0:set", "call:sort", "slice:")
-                ok0 = all(x == ("self", "attr:action", "attr:signature") for x in t0) and bool(t0)
-                ok1 = all(x == ("self", "attr:grounded_call_objects") for x in t1) and bool(t1)
-                tg = n.generators[0].target
-                okkv = isinstance(tg, ast.Tuple) and len(tg.elts) == 2 and isinstance(n.key, ast.Name) and isinstance(n.value, ast.Name) and \
-                    n.key.id == tg.elts[0].id and n.value.id == tg.elts[1].id and not n.generators[0].ifs
-                if ok0 and ok1 and okkv:
-                    r.ok({"function": f.qn, "map": "zip(self.action.signature, self.grounded_call_objects)"})
-                else:
-                    r.fail(Finding("C20.zip", f, "parameter-map", f"the parameter map is built from zip({sorted(t0)[:1]}, {sorted(t1)[:1]}) with key/value "
-                                   f"{'in order' if okkv else 'swapped or filtered'}", node=n))
-        if not found:
-            raise AnalysisError(f"{spec}: parameter map (dict comprehension over zip(signature, call objects)) not found")
-    # the map reaches the grounding calls
-    f = repo.func("Operator.ground")
-    p = L.prov(repo, f)
-    r.site(f.qn + " [map used]")
-    uses = [c for c in L.calls_in(f.node) if callee_name(c) in ("ground_preconditions", "_ground_conditional_effects")]
-    ok = len(uses) == 2 and all(any(x[0] == "fresh:comp" for x in p.trace(c.args[0])) for c in uses if c.args)
-    if ok:
-        r.ok({"used_by": [callee_name(c) for c in uses]})
+        calls = [c for c in L.calls_in(f.node) if callee_name(c) in GROUNDING_CALLS and isinstance(c.func, ast.Attribute)]
+        n_calls[spec] = len(calls)
+        for c in calls:
+            pm = repo.func_opt("GroundedEffect.ground_conditional_effect") if callee_name(c) == "ground_conditional_effect" else \
+                repo.func_opt("GroundedPrecondition.ground_preconditions")
+            m = L.arg_of(c, pm, "parameters_map", 0)
+            r.site(L.site(f, c, "parameter map"))
+            if m is None:
+                r.fail(Finding("C20.zip", f, "parameter-map", f"{unparse(c, 60)} is called without a parameter map", node=c))
+                continue
+            ents = L.map_entries(p.trace(m))
+            keys = {e for k, e in ents if k == "key"}
+            vals = {e for k, e in ents if k == "value"}
+            whole = {e for k, e in ents if k == "whole"}
+            extra_k = {e for e in keys if e != want_key and not (e[-1] == "attr:quantified_parameter")}
+            extra_v = {e for e in vals if e != want_val and not (any("problem_objects" in s_ for s_ in e))}
+            quant_k = {e for e in keys if e[-1] == "attr:quantified_parameter"}
+            quant_v = {e for e in vals if any("problem_objects" in s_ for s_ in e)}
+            ok = want_key in keys and want_val in vals and not extra_k and not extra_v and not whole and (bool(quant_k) == bool(quant_v))
+            if spec == "Operator.ground" and (quant_k or quant_v):
+                ok = False
+            if ok:
+                r.ok({"function": f.qn, "call": unparse(c, 50), "map": "zip(self.action.signature, self.grounded_call_objects)" + (" + quantified binding" if quant_k else "")})
+            else:
+                r.fail(Finding("C20.zip", f, "parameter-map", f"the parameter map handed to {callee_name(c)} has keys from {sorted(keys)[:3]} and values from "
+                               f"{sorted(vals | whole)[:3]}; expected parameters / call arguments paired by zip in their own order", node=c))
+    r.site("Operator.ground [map used]")
+    if n_calls["Operator.ground"] >= 3 and n_calls["Operator.apply"] >= 1:
+        r.ok({"grounding_calls": n_calls})
+    elif n_calls["Operator.ground"] == 0 or n_calls["Operator.apply"] == 0:
+        raise AnalysisError(f"Operator.ground / Operator.apply: grounding calls {GROUNDING_CALLS} not found ({n_calls})")
     else:
-        r.fail(Finding("C20.zip", f, "map-not-used", "preconditions and effects are not both grounded with the parameter map"))
+        r.fail(Finding("C20.zip", L.fn(repo, "Operator.ground"), "map-not-used", f"preconditions, simple effects and conditional effects are not all grounded ({n_calls})"))
     r.require_sites(3)
     return r
+
+
+def _const_matcher(p):
+    """atom 'const': <argument> in domain.constants (any alias of the constants map)"""
+    def matcher(e):
+        if isinstance(e, ast.Compare) and len(e.ops) == 1 and isinstance(e.ops[0], (ast.In, ast.NotIn)) and not isinstance(e.left, ast.Call):
+            try:
+                tr = p.trace(e.comparators[0])
+            except KeyError:
+                return None
+            if any("attr:constants" in x for x in tr):
+                return "const" if isinstance(e.ops[0], ast.In) else "!const"
+        return None
+    return matcher
+
+
+def _enum_source(path, comp: str):
+    """prefix of a path before (.., 'arg0:enumerate', 'elem', 'unpack:<comp>')"""
+    for i in range(len(path) - 2):
+        if path[i] == "arg0:enumerate" and path[i + 1] == "elem" and path[i + 2] == f"unpack:{comp}":
+            return tuple(path[:i])
+    return None
 
 
 def rule_positional(repo: Repo) -> RuleResult:
     r = RuleResult("C20.positional", "ground_predicate: declared parameter i -> object of the literal's i-th argument; constants keep their name",
                    "each parameter replaced, position by position, by the corresponding call argument (constants kept)")
-    f = repo.func(f"{GU}::ground_predicate")
+    f = L.fn(repo, f"{GU}::ground_predicate")
     p = L.prov(repo, f)
-    g = C.cfg_of(f.node)
-
-    def matcher(e):
-        if isinstance(e, ast.Compare) and len(e.ops) == 1 and isinstance(e.ops[0], (ast.In, ast.NotIn)) and "constants" in ast.unparse(e.comparators[0]) \
-                and not isinstance(e.left, ast.Call):
-            return "const" if isinstance(e.ops[0], ast.In) else "!const"
-        return None
-
-    G = L.Guards(f, matcher)
-    stores = [n for n in ast.walk(f.node) if isinstance(n, ast.Assign) and len(n.targets) == 1 and isinstance(n.targets[0], ast.Subscript)
-              and any(any(s.endswith("object_mapping:GroundedPredicate") or s == "kw:object_mapping:GroundedPredicate" for s in x) or True for x in [()])
-              and isinstance(n.targets[0].value, ast.Name) and "mapping" in n.targets[0].value.id]
-    if not stores:
-        raise AnalysisError("ground_predicate: store into the object mapping not recognised")
-    for const in (True, False):
-        r.site(f"{f.qn} [argument is a constant: {const}]")
-        seen = G.reach({"const": const})
-        live = [s for s in stores if g.node_of(s) in seen]
-        if len(live) != 1:
-            r.fail(Finding("C20.positional", f, f"mapping-arms:const={const}", f"{len(live)} stores into the object mapping are reachable when 'is a constant' is {const}"))
-            continue
-        s = live[0]
-        key = p.trace(s.targets[0].slice)
-        val = p.trace(s.value, keys=True)
-        key_ok = any("attr:predicates" in x and "attr:signature" in x for x in key)   # declared parameter name
-        via_map = any(x[0] == "param:parameters_map" and "askey" not in x for x in val)
-        lit_arg = any(x[0] == "param:predicate" and "attr:signature" in x for x in val)
-        same_index = _same_index(f, s)
-        sample = {"constant": const, "key": "declared parameter", "value_via_parameter_map": via_map, "from_literal_argument": lit_arg, "same_position": same_index}
-        if const and key_ok and lit_arg and not via_map and same_index:
-            r.ok(sample)
-        elif (not const) and key_ok and via_map and lit_arg and same_index:
-            r.ok(sample)
-        else:
-            r.fail(Finding("C20.positional", f, f"mapping:const={const}", f"object mapping store {unparse(s, 80)}: {sample}", node=s), sample)
-    # name, polarity, declared signature
-    r.site(f.qn + " [name / polarity / signature]")
+    G = L.Guards(f, _const_matcher(p))
     ctor = [c for c in L.calls_in(f.node) if callee_name(c) == "GroundedPredicate"]
     init = repo.find_method("GroundedPredicate", "__init__")
-    ok = False
-    if ctor:
-        nm, sg, pol, om = (L.arg_of(ctor[0], init, k) for k in ("name", "signature", "is_positive", "object_mapping"))
-        ok = nm is not None and any(x == ("param:predicate", "attr:name") for x in p.trace(nm)) and \
-            pol is not None and all(x == ("param:predicate", "attr:is_positive") for x in p.trace(pol)) and \
-            sg is not None and any("attr:predicates" in x and "attr:signature" in x for x in p.trace(sg)) and om is not None
+    if not ctor:
+        raise AnalysisError("ground_predicate: GroundedPredicate construction not found")
+    om = L.arg_of(ctor[0], init, "object_mapping")
+    if om is None:
+        raise AnalysisError("ground_predicate: object_mapping argument not found")
+    for const in (True, False):
+        r.site(f"{f.qn} [argument is a constant: {const}]")
+        if "const" not in G.atoms_seen:
+            if const:
+                r.fail(Finding("C20.positional", f, "mapping:const=True", "no test `<argument> in domain.constants` decides how an argument is grounded: "
+                               "constants are not kept by name", node=om))
+                continue
+        under = G.under({"const": const})
+        ents = L.map_entries(p.trace(om, keys=True, under=under))
+        keys = [e for k, e in ents if k == "key" and "askey" not in e]
+        vals = [e for k, e in ents if k == "value" and "askey" not in e]
+        vkeys = [e for k, e in ents if k == "value" and "askey" in e]
+        whole = [e for k, e in ents if k == "whole"]
+        if not keys or not vals or whole:
+            raise AnalysisError(f"ground_predicate: the construction of the object mapping is not interpreted (keys={len(keys)}, values={len(vals)}, other={whole[:1]})")
+        key_ok = all("attr:predicates" in x and "attr:signature" in x for x in keys)     # declared parameter names
+        via_map = any(x[0] == "param:parameters_map" for x in vals)
+        lit_direct = [x for x in vals if x[0] == "param:predicate" and "attr:signature" in x]
+        lit_as_key = [x for x in vkeys if x[0] == "param:predicate" and "attr:signature" in x]
+        # same position: index of the literal argument = index of the declared parameter (same enumerate), or a zip pairing
+        ksrc = {_enum_source(x, "1") for x in keys} - {None}
+        isrc = {_enum_source(x, "0") for x in vkeys} - {None}
+        same_index = bool(ksrc & isrc) or (all(x[-1] == "zip0" for x in keys) and any(x[-1] == "zip1" for x in (lit_direct + lit_as_key)))
+        sample = {"constant": const, "key": "declared parameter" if key_ok else sorted(keys)[:2], "value_via_parameter_map": via_map,
+                  "from_literal_argument": bool(lit_direct if const else lit_as_key), "same_position": same_index}
+        if const and key_ok and lit_direct and not via_map and same_index:
+            r.ok(sample)
+        elif (not const) and key_ok and via_map and lit_as_key and not lit_direct and same_index:
+            r.ok(sample)
+        else:
+            r.fail(Finding("C20.positional", f, f"mapping:const={const}", f"object mapping when the argument is{'' if const else ' not'} a constant: {sample}", node=om), sample)
+    # name, polarity, declared signature
+    r.site(f.qn + " [name / polarity / signature]")
+    nm, sg, pol = (L.arg_of(ctor[0], init, k) for k in ("name", "signature", "is_positive"))
+    ok = nm is not None and any(x == ("param:predicate", "attr:name") for x in p.trace(nm)) and \
+        pol is not None and all(x == ("param:predicate", "attr:is_positive") for x in p.trace(pol)) and \
+        sg is not None and any("attr:predicates" in x and "attr:signature" in x for x in p.trace(sg))
     if ok:
         r.ok({"name": "predicate.name", "is_positive": "predicate.is_positive", "signature": "declared signature of the predicate"})
     else:
@@ -127,43 +155,39 @@ def rule_positional(repo: Repo) -> RuleResult:
     return r
 
 
-def _same_index(f: FuncInfo, store: ast.Assign) -> bool:
-    """the store sits in `for i, declared in enumerate(declared_signature)` and reads <literal params>[i]"""
-    for loop in [n for n in ast.walk(f.node) if isinstance(n, ast.For)]:
-        if any(store is s for s in C.stmts_in(loop.body)) and isinstance(loop.iter, ast.Call) and callee_name(loop.iter) == "enumerate" \
-                and isinstance(loop.target, ast.Tuple) and len(loop.target.elts) == 2:
-            idx, name = [e.id for e in loop.target.elts if isinstance(e, ast.Name)]
-            key_is_name = isinstance(store.targets[0].slice, ast.Name) and store.targets[0].slice.id == name
-            reads = [n for n in ast.walk(store.value) if isinstance(n, ast.Subscript) and isinstance(n.slice, ast.Name) and n.slice.id == idx]
-            return key_is_name and bool(reads)
-    return False
+def _stores_into(p, f: FuncInfo, is_target) -> List[ast.Assign]:
+    return [n for n in ast.walk(f.node) if isinstance(n, ast.Assign) and len(n.targets) == 1 and isinstance(n.targets[0], ast.Subscript)
+            and is_target(p.trace(n.targets[0].value))]
 
 
 def rule_constants(repo: Repo) -> RuleResult:
     r = RuleResult("C20.constants", "typed form: a constant carries its own type, a parameter the type it has in the action; numeric leaves likewise",
                    "each argument carries the type its parameter has in the action and each constant its own type")
-    f = repo.func(f"{GU}::fix_grounded_predicate_types")
+    f = L.fn(repo, f"{GU}::fix_grounded_predicate_types")
     p = L.prov(repo, f)
     g = C.cfg_of(f.node)
-
-    def matcher(e):
-        if isinstance(e, ast.Compare) and len(e.ops) == 1 and isinstance(e.ops[0], (ast.In, ast.NotIn)) and "constants" in ast.unparse(e.comparators[0]):
-            return "const" if isinstance(e.ops[0], ast.In) else "!const"
-        return None
-
-    G = L.Guards(f, matcher)
-    stores = [n for n in ast.walk(f.node) if isinstance(n, ast.Assign) and isinstance(n.targets[0], ast.Subscript)]
+    G = L.Guards(f, _const_matcher(p))
+    stores = _stores_into(p, f, lambda tr: any(x == ("param:predicate_signature",) for x in tr))
+    if not stores or "const" not in G.atoms_seen:
+        raise AnalysisError(f"fix_grounded_predicate_types: stores into predicate_signature / constant test not recognised (stores={len(stores)})")
+    pair_ok = True
     for const in (True, False):
         r.site(f"{f.qn} [constant: {const}]")
-        seen = G.reach({"const": const})
-        live = [s for s in stores if g.node_of(s) in seen]
+        under = G.under({"const": const})
+        live = [s_ for s_ in stores if g.node_of(s_) in under[1]]
         ok = False
         if len(live) == 1:
-            v = p.trace(live[0].value)
+            v = p.trace(live[0].value, under=under)
             if const:
                 ok = any(x[0] == "param:domain" and "attr:constants" in x and x[-1] == "attr:type" for x in v) and not any(x[0] == "param:action" for x in v)
             else:
                 ok = any(x[:2] == ("param:action", "attr:signature") for x in v) and not any("attr:constants" in x for x in v)
+            # pairing: key = declared parameter (component 0 of the zip), looked-up name = literal parameter (component 1)
+            k = p.trace(live[0].targets[0].slice)
+            vk = [x for x in p.trace(live[0].value, keys=True, under=under) if "askey" in x]
+            pair_ok = pair_ok and all(x[:2] == ("param:predicate_signature", "arg0:zip") for x in k) and bool(k) and \
+                any(x[:2] == ("param:lifted_predicate_params", "arg1:zip") for x in vk) and \
+                not any(x[0] == "param:predicate_signature" for x in vk)
         if ok:
             r.ok({"constant": const, "type_from": "domain.constants[name].type" if const else "action.signature[name]"})
         else:
@@ -171,33 +195,33 @@ def rule_constants(repo: Repo) -> RuleResult:
                            f"{'the constant' if const else 'the action signature'}"))
     # zip(declared parameters, literal parameters) in order
     r.site(f.qn + " [pairing]")
-    loops = [n for n in ast.walk(f.node) if isinstance(n, ast.For) and isinstance(n.iter, ast.Call) and callee_name(n.iter) == "zip"]
-    ok = bool(loops) and any(x == ("param:predicate_signature",) for x in p.trace(loops[0].iter.args[0])) and \
-        any(x == ("param:lifted_predicate_params",) for x in p.trace(loops[0].iter.args[1])) and \
-        not any(x[0].startswith("param:") and x[0] != "param:predicate_signature" and len(x) == 1 for x in p.trace(loops[0].iter.args[0]))
-    if ok:
+    if pair_ok:
         r.ok({"pairs": "zip(predicate_signature, lifted_predicate_params)"})
     else:
         r.fail(Finding("C20.constants", f, "pairing", "declared parameters and literal parameters are not paired position by position"))
     # numeric leaves
-    h = repo.func(f"{GU}::_iterate_calc_tree_and_ground")
+    h = L.fn(repo, f"{GU}::ground_numeric_calculation_tree")
     ph = L.prov(repo, h)
     gh = C.cfg_of(h.node)
-    Gh = L.Guards(h, matcher)
-    hst = [n for n in ast.walk(h.node) if isinstance(n, ast.Assign) and isinstance(n.targets[0], ast.Subscript)]
+    Gh = L.Guards(h, _const_matcher(ph))
+    ctor = [c for c in L.calls_in(h.node) if callee_name(c) == "PDDLFunction"]
+    finit = repo.find_method("PDDLFunction", "__init__")
+    if not ctor or "const" not in Gh.atoms_seen:
+        raise AnalysisError("ground_numeric_calculation_tree: construction of the grounded function / constant test not recognised")
+    sg = L.arg_of(ctor[0], finit, "signature")
     for const in (True, False):
         r.site(f"{h.qn} [constant: {const}]")
-        seen = Gh.reach({"const": const})
-        live = [s for s in hst if gh.node_of(s) in seen]
-        ok = False
-        if len(live) == 1:
-            k = ph.trace(live[0].targets[0].slice)
-            v = ph.trace(live[0].value)
-            typ_ok = any("attr:signature" in x for x in v)
-            if const:
-                ok = typ_ok and not any(x[0] == "param:parameters_map" for x in k)
-            else:
-                ok = typ_ok and any(x[0] == "param:parameters_map" for x in k)
+        under = Gh.under({"const": const})
+        ents = L.map_entries(ph.trace(sg, keys=True, under=under)) if sg is not None else set()
+        keys = [e for k, e in ents if k == "key" and "askey" not in e]
+        kkeys = [e for k, e in ents if k == "key" and "askey" in e]
+        vals = [e for k, e in ents if k == "value" and "askey" not in e]
+        typ_ok = bool(vals) and all("attr:signature" in x for x in vals)
+        via_map = any(x[0] == "param:parameters_map" for x in keys)
+        if const:
+            ok = typ_ok and bool(keys) and not via_map
+        else:
+            ok = typ_ok and via_map and any("attr:signature" in x for x in kkeys)
         if ok:
             r.ok({"numeric_leaf_constant": const, "key": "the constant's name" if const else "parameters_map[parameter]"})
         else:
@@ -209,30 +233,64 @@ def rule_constants(repo: Repo) -> RuleResult:
 def rule_complete(repo: Repo) -> RuleResult:
     r = RuleResult("C20.complete", "an effect group grounds all of its discrete and numeric effects; the operator builds one group per effect group of the schema",
                    "nothing is added or omitted")
-    f = repo.func("GroundedEffect.ground_conditional_effect")
+    f = L.fn(repo, "GroundedEffect.ground_conditional_effect")
     p = L.prov(repo, f)
+    pm = L.parents_of(f)
     for lifted, grounded, fn in (("_lifted_discrete_effects", "grounded_discrete_effects", "ground_predicate"),
                                  ("_lifted_numeric_effects", "grounded_numeric_effects", "ground_numeric_calculation_tree")):
         r.site(f"{f.qn} [{lifted}]")
-        ok = False
-        for loop in [n for n in ast.walk(f.node) if isinstance(n, ast.For)]:
-            if all(x == ("self", f"attr:{lifted}") for x in p.trace(loop.iter)) and p.trace(loop.iter):
-                filt = any(isinstance(s, (ast.If, ast.Continue, ast.Break)) for s in C.stmts_in(loop.body))
-                adds = [c for c in L.calls_in(loop) if isinstance(c.func, ast.Attribute) and c.func.attr == "add" and
-                        any(x == ("self", f"attr:{grounded}") for x in p.trace(c.func.value))]
-                good = [c for c in adds if c.args and isinstance(c.args[0], ast.Call) and callee_name(c.args[0]) == fn and
-                        any(x[-1] == "elem" for x in p.trace(c.args[0].args[0]))]
-                ok = not filt and len(good) == 1
-        if ok:
-            r.ok({"loop": f"for e in self.{lifted}: self.{grounded}.add({fn}(e, ...))", "filter": None})
+
+        def is_target(e, grounded=grounded):
+            if isinstance(e, ast.Attribute) and isinstance(e.ctx, ast.Store):
+                return e.attr == grounded and isinstance(e.value, ast.Name) and e.value.id == f.self_name
+            try:
+                tr = p.trace(e)
+            except KeyError:
+                return False
+            return bool(tr) and all(x == ("self", f"attr:{grounded}") for x in tr)
+
+        adds = L.container_additions(f, is_target)
+        good = 0
+        why = "no statement adds the grounded elements"
+        for elt, conds, site, comp in adds:
+            if isinstance(site, ast.Assign) and isinstance(site.value, ast.Call) and callee_name(site.value) in ("set", "list") and not site.value.args:
+                continue   # (re-)initialisation to an empty container in the same function is not a pruning by itself
+            if conds is None:
+                why = f"{unparse(site, 60)} is not an element-wise construction"
+                continue
+            if not (isinstance(elt, ast.Call) and callee_name(elt) == fn and elt.args):
+                why = f"the added element {unparse(elt, 50)} is not {fn}(<lifted effect>, ...)"
+                continue
+            src = p.trace(elt.args[0])
+            if not (src and all(x == ("self", f"attr:{lifted}", "elem") for x in src)):
+                why = f"the grounded element derives from {sorted(src)[:2]}"
+                continue
+            if conds:
+                why = "the elements are filtered"
+                continue
+            # loop form: no branching inside the loop(s) that enclose the site
+            loops = [x for x in _ancestors(pm, site) if isinstance(x, (ast.For, ast.While))]
+            if comp is None and (not loops or any(isinstance(s_, (ast.If, ast.Continue, ast.Break)) for lp in loops for s_ in C.stmts_in(lp.body))):
+                why = "the grounding loop is filtered / not a loop over the lifted effects"
+                continue
+            if any(isinstance(x, ast.If) for x in _ancestors(pm, site)):
+                why = "the grounding statement is conditional"
+                continue
+            good += 1
+        if good == 1:
+            r.ok({"grounds": f"every element of self.{lifted} -> self.{grounded} via {fn}", "filter": None})
         else:
-            r.fail(Finding("C20.complete", f, f"effects-loop:{lifted}", f"not every element of {lifted} is grounded into {grounded}"))
+            r.fail(Finding("C20.complete", f, f"effects-loop:{lifted}", f"not every element of {lifted} is grounded into {grounded}: {why}"))
     # nothing is removed from / re-filtered in the grounded collections afterwards
     r.site(f"{f.qn} [no pruning]")
     pruned = []
     for n in ast.walk(f.node):
         if isinstance(n, ast.Assign) and any(isinstance(t, ast.Attribute) and t.attr in ("grounded_discrete_effects", "grounded_numeric_effects") for t in n.targets):
-            pruned.append(n)
+            v = n.value
+            elementwise = isinstance(v, (ast.SetComp, ast.ListComp)) and not any(g_.ifs for g_ in v.generators) and \
+                all(x[:2] in (("self", "attr:_lifted_discrete_effects"), ("self", "attr:_lifted_numeric_effects")) for x in p.trace(v.generators[0].iter))
+            if not elementwise:
+                pruned.append(n)
         if isinstance(n, ast.Call) and isinstance(n.func, ast.Attribute) and n.func.attr in ("discard", "remove", "pop", "clear", "difference_update", "intersection_update") \
                 and any(x[:2] in (("self", "attr:grounded_discrete_effects"), ("self", "attr:grounded_numeric_effects")) for x in p.trace(n.func.value)):
             pruned.append(n)
@@ -244,44 +302,129 @@ def rule_complete(repo: Repo) -> RuleResult:
     # antecedents grounded with the same map
     r.site(f"{f.qn} [antecedents]")
     ac = [c for c in L.calls_in(f.node) if callee_name(c) == "ground_preconditions"]
-    if ac and all(x == ("param:parameters_map",) for x in p.trace(ac[0].args[0])):
+    if ac and ac[0].args and all(x == ("param:parameters_map",) for x in p.trace(ac[0].args[0])):
         r.ok({"antecedents": "ground_preconditions(parameters_map)"})
     else:
         r.fail(Finding("C20.complete", f, "antecedents", "the antecedents are not grounded with the same parameter map"))
     # operator: one group for simple effects + one per conditional effect
-    o = repo.func("Operator._ground_conditional_effects")
+    o = L.fn(repo, "Operator.ground")
     po = L.prov(repo, o)
+    go = C.cfg_of(o.node)
+    pmo = L.parents_of(o)
     init = repo.find_method("GroundedEffect", "__init__")
-    ctors = [c for c in L.calls_in(o.node) if callee_name(c) == "GroundedEffect"]
-    g = C.cfg_of(o.node)
-    simple = [c for c in ctors if g.loop_of.get(g.node_containing(c)) is None]
-    conds = [c for c in ctors if g.loop_of.get(g.node_containing(c)) is not None]
+    ctors = [c for c in L.calls_in(o.node) if callee_name(c) == "GroundedEffect" and isinstance(c.func, ast.Name)]
+    if not ctors:
+        raise AnalysisError("Operator.ground: no GroundedEffect construction found")
+
+    def null_elem(e):
+        """`<a conditional effect of the schema> is None`: an element of the schema's collection is an object"""
+        if isinstance(e, ast.Compare) and len(e.ops) == 1 and isinstance(e.ops[0], (ast.Is, ast.IsNot, ast.Eq, ast.NotEq)) and \
+                isinstance(e.comparators[0], ast.Constant) and e.comparators[0].value is None:
+            try:
+                tr = po.trace(e.left)
+            except KeyError:
+                return None
+            if tr and all(x[:4] == ("self", "attr:action", "attr:conditional_effects", "elem") for x in tr):
+                return "nullelem" if isinstance(e.ops[0], (ast.Is, ast.Eq)) else "!nullelem"
+        return None
+
+    under = L.Guards(o, null_elem).under({"nullelem": False})
+    _plain_trace = po.trace
+    po = _Under(po, under)
+    simple, conds, other = [], [], []
+    for c in ctors:
+        d = L.arg_of(c, init, "lifted_discrete_effects")
+        td = po.trace(d) if d is not None else set()
+        if td and all(x == ("self", "attr:action", "attr:discrete_effects") for x in td):
+            simple.append(c)
+        elif td and all(x[:4] == ("self", "attr:action", "attr:conditional_effects", "elem") for x in td):
+            conds.append(c)
+        else:
+            other.append(c)
+
+    def handled(c) -> bool:
+        """the constructed group is grounded and collected (plain copies of the variable are followed)"""
+        par = pmo.get(c)
+        if not (isinstance(par, (ast.Assign, ast.AnnAssign)) and par.value is c):
+            return False
+        grounded = collected = False
+        todo, seen_defs = [par], set()
+        while todo:
+            st = todo.pop()
+            if id(st) in seen_defs:
+                continue
+            seen_defs.add(id(st))
+            tgt = st.targets[0] if isinstance(st, ast.Assign) else st.target
+            if not isinstance(tgt, ast.Name):
+                continue
+            d = go.node_of(st)
+            for u in [n for n in ast.walk(o.node) if isinstance(n, ast.Name) and n.id == tgt.id and isinstance(n.ctx, ast.Load)]:
+                try:
+                    if d not in po.rd.defs_reaching(po.node_of(u), u.id):
+                        continue
+                except KeyError:
+                    continue
+                pu = pmo.get(u)
+                if isinstance(pu, ast.Attribute) and pu.attr == "ground_conditional_effect":
+                    grounded = True
+                elif isinstance(pu, ast.Call) and isinstance(pu.func, ast.Attribute) and pu.func.attr in ("add", "append") and u in pu.args:
+                    collected = True
+                elif isinstance(pu, (ast.Set, ast.List, ast.Tuple)):
+                    collected = True
+                elif isinstance(pu, (ast.Assign, ast.AnnAssign)) and pu.value is u:
+                    todo.append(pu)
+        return grounded and collected
+
     r.site(o.qn + " [simple group]")
     ok = False
-    if len(simple) == 1:
+    if len(simple) == 1 and not other:
         c = simple[0]
-        a, d, n = (L.arg_of(c, init, k) for k in ("lifted_antecedents", "lifted_discrete_effects", "lifted_numeric_effects"))
-        ok = isinstance(a, ast.Constant) and a.value is None and all(x == ("self", "attr:action", "attr:discrete_effects") for x in po.trace(d)) and \
-            all(x == ("self", "attr:action", "attr:numeric_effects") for x in po.trace(n))
+        a, n = (L.arg_of(c, init, k) for k in ("lifted_antecedents", "lifted_numeric_effects"))
+        ta = po.trace(a) if a is not None else set()
+        ok = bool(ta) and all(x == ("const:None",) for x in ta) and n is not None and all(x == ("self", "attr:action", "attr:numeric_effects") for x in po.trace(n)) \
+            and go.loop_of.get(go.node_containing(c)) is None and handled(c)
     if ok:
         r.ok({"simple_group": "GroundedEffect(None, action.discrete_effects, action.numeric_effects)"})
     else:
         r.fail(Finding("C20.complete", o, "simple-group", "the unconditional effects are not grounded as one group without antecedents"))
     r.site(o.qn + " [conditional groups]")
     ok = False
-    if len(conds) == 1:
+    if len(conds) == 1 and not other:
         c = conds[0]
         a, d, n = (L.arg_of(c, init, k) for k in ("lifted_antecedents", "lifted_discrete_effects", "lifted_numeric_effects"))
         same = lambda e, fld: e is not None and all(x == ("self", "attr:action", "attr:conditional_effects", "elem", f"attr:{fld}") for x in po.trace(e)) and po.trace(e)
-        ok = same(a, "antecedents") and same(d, "discrete_effects") and same(n, "numeric_effects")
-    adds = [c for c in L.calls_in(o.node) if isinstance(c.func, ast.Attribute) and c.func.attr == "add"]
-    grounded = [c for c in L.calls_in(o.node) if callee_name(c) == "ground_conditional_effect"]
-    if ok and len(adds) == 2 and len(grounded) == 2:
+        lp = [x for x in _ancestors(pmo, c) if isinstance(x, ast.For)]
+        unfiltered = bool(lp) and not any(isinstance(s_, (ast.Continue, ast.Break)) for s_ in C.stmts_in(lp[0].body)) and \
+            not any(isinstance(x, ast.If) and not getattr(x, "_inline_block", False) for x in _ancestors(pmo, c)) and \
+            all(x == ("self", "attr:action", "attr:conditional_effects") for x in po.trace(lp[0].iter))
+        ok = same(a, "antecedents") and same(d, "discrete_effects") and same(n, "numeric_effects") and unfiltered and handled(c)
+    if ok:
         r.ok({"conditional_groups": "one GroundedEffect per conditional effect with its own antecedents / effects; every group grounded and collected"})
     else:
         r.fail(Finding("C20.complete", o, "conditional-groups", "conditional effects are not grounded one group each (antecedents, discrete, numeric of the same effect)"))
     r.require_sites(6)
     return r
+
+
+class _Under:
+    """a Prov view whose traces are taken under a fixed valuation"""
+
+    def __init__(self, p, under):
+        self._p, self._u = p, under
+        self.rd, self.g = p.rd, p.g
+
+    def trace(self, e, **kw):
+        return self._p.trace(e, under=self._u, **kw)
+
+    def node_of(self, e):
+        return self._p.node_of(e)
+
+
+def _ancestors(pm, n):
+    cur = n
+    while cur in pm:
+        cur = pm[cur]
+        yield cur
 
 
 def rules(repo: Repo, tier: str) -> List[RuleResult]:
@@ -290,4 +433,4 @@ def rules(repo: Repo, tier: str) -> List[RuleResult]:
     return [rule_zip(repo), rule_positional(repo), rule_constants(repo), rule_complete(repo), c02.rule_translate(repo, "C20.translate"),
             # a grounded literal carries ITS argument types: it must not share (and overwrite) the domain's declaration or the action schema
             c07.rule_write(repo, "C20.purity", floor=10, only=grounding),
-            c01.rule_dupkeys(repo, "C20.dupkeys", [f"{GU}::_iterate_calc_tree_and_ground"])]
+            c01.rule_dupkeys(repo, "C20.dupkeys", [f"{GU}::ground_numeric_calculation_tree"])]
